@@ -54,7 +54,7 @@ func cliCases(c *core.Ctx) []cliCase {
 		for _, n := range []int{0, 1, 64, 65, 100, 101} {
 			add(k, n, false)
 		}
-		for i := 0; i < c.Pick(6, 500); i++ {
+		for i := 0; i < c.Pick(6, 350); i++ {
 			add(k, randN(), false)
 		}
 	}
@@ -64,7 +64,7 @@ func cliCases(c *core.Ctx) []cliCase {
 			add(k, n, true)
 		}
 		add(k, 40000, true)
-		for i := 0; i < c.Pick(10, 480); i++ {
+		for i := 0; i < c.Pick(10, 350); i++ {
 			n := randN()
 			if rng.Intn(12) == 0 {
 				n = 10000 + rng.Intn(40000)
@@ -163,7 +163,7 @@ func runCLI(c *core.Ctx) {
 	cases := cliCases(c)
 	results := make([]*Result, len(cases))
 	var mu sync.Mutex
-	core.Parallel(len(cases), 12, func(i int) {
+	core.Parallel(len(cases), 16, func(i int) {
 		if c.Only != "" && c.Only != cases[i].ID {
 			return
 		}
